@@ -358,6 +358,16 @@ def gen_smtp_all(rnd, ndouble, full=False):
                     oclass = '2xx' if o == '2xx' else OUTCOMES[o][0]
                     cases.append(smtp_case(lmtp, pipelining, nrcpt, st, o, [fault(st, o)],
                                            expect_smtp(lmtp, nrcpt, st, oclass)))
+    # --- an address that cannot be expressed to this next hop: non-ASCII sender / recipient while the
+    #     downstream does not advertise SMTPUTF8 (everything else answers 2xx). Only TYPE / SAFETY / ENDS
+    #     are judged: the relay may fail that recipient or the whole message, but with a relay error.
+    for lmtp in (False, True):
+        for pipelining in (True, False):
+            for nrcpt in (1, 2, 3):
+                for which in ['sender'] + list(range(nrcpt)):
+                    cases.append(smtp_case(lmtp, pipelining, nrcpt, 'address', 'non-ascii-%s' % (
+                        'sender' if which == 'sender' else 'rcpt'), [], ['?'] * nrcpt, oclass='non-ascii',
+                        nonascii=which))
     # --- HELO fallback after EHLO 500 (SMTP only)
     for nrcpt in (1, 2):
         for o in ['2xx'] + [x for x in OUTCOMES if x not in ('1xx', '3xx')]:
@@ -522,13 +532,18 @@ def exec_smtp(case, alone=False):
     relay = (StaticLmtpRelay if case['lmtp'] else StaticSmtpRelay)('next-hop.test', 25, **kw)
     crashes = _own(relay)
     rcpts = ['r%d@d.test' % i for i in range(case['nrcpt'])]
+    sender = 's@src.test'
+    if case.get('nonascii') == 'sender':
+        sender = 's\u00fc\u00df@src.test'
+    elif case.get('nonascii') is not None:
+        rcpts[case['nonascii']] = 'r\u00fc%d@d.test' % case['nonascii']
     nmsg = 2 if case.get('reuse') else 1
     expects = case['expect'] if case.get('reuse') else [case['expect']]
     msgs = []
     try:
         for mi in range(nmsg):
             marker = 'c11-%d-m%d' % (uid, mi)
-            env = make_envelope('s@src.test', rcpts, marker)
+            env = make_envelope(sender, rcpts, marker)
             res = run_attempt(relay, env, mi, T)
             msgs.append({'label': 'msg%d' % (mi + 1), 'marker': marker, 'rcpts': rcpts, 'result': res,
                          'expect': dict(zip(rcpts, expects[mi]))})
@@ -1107,6 +1122,8 @@ def classify(clause, case, m, extra='', crashes=()):
         if res['end'] == 'raised-other':
             if k in ('smtp', 'lmtp', 'mx') and exc == 'ValueError' and 'Invalid SMTP reply code' in res.get('repr', ''):
                 return 'type/smtp/out-of-range-reply-code->ValueError'
+            if k in ('smtp', 'lmtp') and exc == 'UnicodeEncodeError' and case.get('nonascii') is not None:
+                return 'type/smtp/non-ascii-address-without-SMTPUTF8->UnicodeEncodeError'
             if k == 'pipe' and exc == 'TypeError' and case['cls'] == 'maildrop':
                 return 'type/pipe/maildrop-nonzero-exit->TypeError'
             if k == 'pipe' and exc == 'UnicodeDecodeError' and case['cls'].startswith('pipe-'):
